@@ -6,6 +6,6 @@ CONSTANTS
   Vals = {"1"}
   MaxSamples = 4
   EmitMode = "none"
-INVARIANTS ExactlyInput ExactWhenNonNegative Aligned OnlyInput RejectedWhole
+INVARIANTS ExactlyInput AlignIsFloor Aligned OnlyInput RejectedWhole
 PROPERTIES Terminates
 CHECK_DEADLOCK FALSE
